@@ -107,6 +107,22 @@ def text_of(m, name):
     out += ["}", "@enduml"]
     return "\n".join("    " + l for l in out) + "\n"
 
+def _pm(regions, rows, term=(), entries=None, exits=None, flags=None):
+    return {"regions": regions, "rows": [dict(src=a, tgt=b, ev=e, act=c, guard=g) for a, b, e, c, g in rows], "term": sorted(term),
+            "entries": entries or {}, "exits": exits or {}, "flags": flags or {}, "seed": 0.5}
+
+# the shapes of the repaired defects F23-F27 (known_findings.json), run first on every check
+PINNED = [
+    (_pm([["Open", "ReOpen"]], [("Open", "ReOpen", "e1", "act1", None)], term=["ReOpen"]), "PIN_F23_suffix_terminate"),
+    (_pm([["A", "B"]], [("A", None, "e2", "act1", None), ("A", "B", "e1", None, None)], term=["B"]), "PIN_F24_internal_and_terminate"),
+    (_pm([["A", "AA"], ["Idle", "Busy"]], [("A", "AA", "e1", None, None), ("Idle", "Busy", "e2", "act2", None), ("Busy", "Idle", "e2", None, None)],
+         term=["AA"]), "PIN_F25_terminate_before_region"),
+    (_pm([["A", "B"]], [("A", "B", "e1", None, None), ("B", "A", "e2", None, None)], entries={"B": [("log_exit", None)]},
+         exits={"A": [("on_entry_done", "g1")]}, flags={"B": ["F1"]}), "PIN_F26_keyword_in_name"),
+    (_pm([["A", "B"]], [("A", "B", "e1", None, None), ("B", "A", "e2", None, None)], entries={"A": [("act1", None)]},
+         flags={"A": ["F2"]}), "PIN_F27_initial_state_with_lines"),
+]
+
 def reference(m, script):
     """the intended meaning: list of log lines per operation"""
     regions = m["regions"]
@@ -231,7 +247,7 @@ def run(seed, n_machines, stats=None, per_tu=3, jobs=8):
     """returns (mismatches, violations) in the shape checklib expects"""
     from concurrent.futures import ThreadPoolExecutor
     rng = random.Random("pumlmachines/%d" % seed)
-    ms = [(gen_machine(rng), "PM%d_%d" % (seed, i)) for i in range(n_machines)]
+    ms = list(PINNED) + [(gen_machine(rng), "PM%d_%d" % (seed, i)) for i in range(n_machines)]
     scripts = {name: [gen_script(random.Random("%s/%d" % (name, j)), 10) for j in range(1)] for _, name in ms}
     groups = [ms[i:i + per_tu] for i in range(0, len(ms), per_tu)]
     mism, viol = [], []
